@@ -140,6 +140,8 @@ def run(ctx):
     n += nc
     ctx.traces = n
     ctx.extra.update({"histories_ending_in_mutator": muts, "histories_total": len(res.cases)})
+    from .. import tracedrv
+    tracedrv.trace_check(ctx, 150 if ctx.tier == "quick" else 1200, 6 if ctx.tier == "quick" else 8)
     ctx.rule = ("every history ending in a mutator is replayed (reads inside the history are performed), then all views are compared with a "
                 "twin built from the spec's definition; then the deep-copy independence checks (edit copy / edit original)")
     ctx.assumptions = ["1e-9 relative tolerance between object and twin", "containers are covered by the container sub-check"]
@@ -215,6 +217,9 @@ class _Prefix:
 
 
 def replay(ctx, v):
+    if "trace" in v["full"]:
+        from .. import tracedrv
+        return tracedrv.replay_trace(ctx, v["full"])
     full = v["full"]
     if "ver" in full:
         check_container(ctx, full)
